@@ -536,6 +536,25 @@ func c09MakeOps() (sig, desc []c09Op) {
 			func(m *c09Model) {
 				m.sec.Descs = append(m.sec.Descs, ref.S35Desc{IsSeg: true, Tag: ref.S35SegTag, Identifier: ref.S35CUEI})
 			}),
+		// replace the last element of the list returned by Descriptors() by a descriptor that belongs to
+		// ANOTHER signal and hand the same slice back: the descriptor must be re-linked to this signal
+		c09ValOp("SCTE35.SetDescriptors(same slice, last element replaced by a descriptor of another signal)", func(m *c09Model) bool { return m.nseg() > 0 && m.nseg() == len(m.sec.Descs) },
+			func(s scte35.SCTE35) {
+				foreign := scte35.CreateSCTE35()
+				fc := scte35.CreateTimeSignalCommand()
+				foreign.SetCommandInfo(fc)
+				fc.SetHasPTS(true)
+				foreign.SetPTS(424242)
+				d := scte35.CreateSegmentationDescriptor()
+				d.SetEventID(0x77)
+				foreign.SetDescriptors([]scte35.SegmentationDescriptor{d})
+				list := s.Descriptors()
+				list[len(list)-1] = d
+				s.SetDescriptors(list)
+			},
+			func(m *c09Model) {
+				m.sec.Descs[len(m.sec.Descs)-1] = ref.S35Desc{IsSeg: true, Tag: ref.S35SegTag, Identifier: ref.S35CUEI, Seg: ref.S35Seg{EventID: 0x77}}
+			}),
 	}
 	sig = append(sig, setDescs...)
 	// command
@@ -893,7 +912,7 @@ const c09Oracle = "UpdateData() == reference canonical encoding (bit-writer fiel
 	"CRC residue 0 under ref.CRC32MPEG2, Data() == returned bytes, second UpdateData() identical, NewSCTE35(encoding) reports the same values; a wrong encoding is classified by parsing it with the reference parser"
 
 func init() {
-	sigRule := "alphabet: UpdateData; SCTE35.SetTier {FFF,0,1ABC->ABC}, SetHasPTS t/f, SetPTS {90000,2^33-1}, SetAdjustPTS {0,2^32+5}, SetAlignmentStuffing {0,3}, SetCommandInfo(fresh null / time_signal / splice_insert), SetDescriptors(none / current + fresh); " +
+	sigRule := "alphabet: UpdateData; SCTE35.SetTier {FFF,0,1ABC->ABC}, SetHasPTS t/f, SetPTS {90000,2^33-1}, SetAdjustPTS {0,2^32+5}, SetAlignmentStuffing {0,3}, SetCommandInfo(fresh null / time_signal / splice_insert), SetDescriptors(none / current + fresh / same slice with the last element replaced by a descriptor of another signal); " +
 		"CommandInfo().SetHasPTS t/f, SetPTS {1, 2^33+7->7}; SpliceInsert.Set{IsEventCanceled,IsOut,IsProgramSplice,HasDuration,SpliceImmediate,IsAutoReturn} t/f, SetDuration, SetEventID, SetUniqueProgramId, SetAvailNum, SetAvailsExpected; Components()[0].SetComponentTag, SetPTS(3*2^32->2^32), SetHasPTS t/f"
 	descRule := "alphabet on Descriptors()[0]: UpdateData; SetDescriptors(none / current + fresh); Set{IsEventCanceled,HasProgramSegmentation,HasDuration,IsDeliveryNotRestricted,IsWebDeliveryAllowed,HasNoRegionalBlackout,IsArchiveAllowed,HasSubSegments} t/f; " +
 		"SetDuration {2^40+2^39+1 -> 2^39+1, 2^39-1}; SetDeviceRestrictions {0,2}; SetEventID; SetTypeID {34,36,10}; SetSubSegmentNumber/Expected; SetSegmentNumber/Expected; SetUPIDType {MID,TI,not used}; SetUPID {8 bytes, empty}; SetMID {2 entries, none}; MID()[0].SetUPID / SetUPIDType; SetComponents {one, none, own handles reversed, own last handle + fresh + own first}; SetMID(own handles reversed); Components()[0].SetPTSOffset / SetComponentTag"
